@@ -32,6 +32,8 @@ func propC10(c *Ctx) {
 	// what a PASTE brings is declared like what is written in place: a second declaration of a name is an error
 	// whether or not it is "the same" directive
 	c.ruleNoSkipOnExists()
+	// what a PASTE brings exists only in the expanded list: every collector after the expansion must work on it
+	c.ruleExpandedTree()
 }
 
 // ruleValueReceiverWrites: a method with a value receiver works on a copy of the struct, but the copy shares every map,
